@@ -221,7 +221,7 @@ class Check:
             return False
         return True
 
-    def coq_eval(self, name, header, items, render, per_shard=150, fn="check", timeout=900):
+    def coq_eval(self, name, header, items, render, per_shard=150, fn="check", timeout=2400):
         """Evaluate `fn` on every item inside Coq, sharded over parallel coqc processes.
         `render(item)` gives the Gallina term of one case. Returns {index: code} for non-zero
         codes, or raises RuntimeError with the log when coqc fails."""
